@@ -26,7 +26,9 @@ RULE = ("all placements of coefficient kinds on b0..b2, a0..a2 within the tier's
         "stream-bearing filters; non-trivial: at least one coefficient is a Stream")
 ASSUMPTIONS = [
   "stream coefficient values are exact (Q) and vary with time (prime + n), constants are plain ints",
-  "a filter object carrying Streams is used once (re-use needs .copy(), as documented)",
+  "a filter object carrying Streams is consumed by its use: in the shapes/sparse/algebra kinds it is called once; "
+  "the blockwise kind calls one object on two consecutive blocks and demands that the second call goes on with "
+  "the coefficient values after those the first call read (one read per output sample, the statement's accounting)",
   "sums are checked where the result's coefficient sequences are unambiguous: different "
   "denominators (cross-multiplication) or both denominators equal to 1",
 ]
